@@ -101,6 +101,7 @@ type attemptScript struct {
 	grpcStat  string
 	early     bool // 103 Early Hints before the final status
 	closeBody bool // the handler closes the request body when done with it (http.Transport always does)
+	writeHow  int  // 0 Write, 1 io.WriteString, 2 io.Copy, 3 fmt.Fprintf
 	tryHijack bool // the handler first tries to take over the connection; the client's writer refuses or cannot, and it answers normally
 	abort     bool // after its writes the handler aborts with panic(http.ErrAbortHandler), as a reverse proxy does when the backend breaks off
 }
@@ -240,7 +241,17 @@ func (ex *exchange) handler() http.Handler {
 			w.WriteHeader(sc.status)
 		}
 		for _, n := range sc.writes {
-			_, _ = w.Write(bytes.Repeat([]byte{respByte(a)}, n))
+			chunk := bytes.Repeat([]byte{respByte(a)}, n)
+			switch sc.writeHow { // the ways handlers put bytes on a ResponseWriter
+			case 1:
+				_, _ = io.WriteString(w, string(chunk)) // uses the writer's WriteString if it has one
+			case 2:
+				_, _ = io.Copy(w, bytes.NewReader(chunk)) // uses the writer's ReadFrom if it has one
+			case 3:
+				_, _ = fmt.Fprintf(w, "%s", chunk)
+			default:
+				_, _ = w.Write(chunk)
+			}
 		}
 		if sc.abort {
 			panic(http.ErrAbortHandler)
@@ -383,6 +394,12 @@ func drawClientHeaders(rt *rapid.T) http.Header {
 	if rapid.IntRange(0, 3).Draw(rt, "h-upgrade") == 0 {
 		h.Set("Upgrade", rapid.SampledFrom([]string{"websocket", "h2c"}).Draw(rt, "upgrade-to"))
 		h.Set("Connection", rapid.SampledFrom([]string{"Upgrade", "upgrade", "keep-alive, Upgrade"}).Draw(rt, "connection"))
+	}
+	if rapid.IntRange(0, 3).Draw(rt, "h-credentials") == 0 {
+		h.Set("Authorization", "Bearer c2VjcmV0")
+		if rapid.Bool().Draw(rt, "h-proxy-credentials") {
+			h.Set("Proxy-Authorization", "Basic dTpw")
+		}
 	}
 	if rapid.IntRange(0, 5).Draw(rt, "h-expect") == 0 {
 		h.Set("Expect", "100-continue")
